@@ -12,7 +12,7 @@ from vt import symx
 from vt.oblig import Obligation
 import props._graphs as G
 
-from traits.api import push_exception_handler, pop_exception_handler
+from traits.api import push_exception_handler, pop_exception_handler, on_trait_change, observe
 from traits.observation import exception_handling as _eh
 
 LEVEL = "model_checking"
@@ -97,7 +97,32 @@ def mutate(ex, step, root, mut, fresh):
         raise AssertionError(mut)
 
 
-def harness_factory(lname, k, nargs, twins=False):
+class _Recorder:
+    """listener objects that compare EQUAL to each other (value-based __eq__) while being distinct: a registration belongs to
+    the object whose bound method was given"""
+
+    def __init__(self, legacy, modern):
+        self.legacy, self.modern = legacy, modern
+
+    def __eq__(self, other):
+        return isinstance(other, _Recorder)
+
+    def __hash__(self):
+        return 7
+
+    def on_legacy(self, obj, name, old, new):
+        self.legacy.append((name, new))
+
+    def on_modern(self, e):
+        if type(e).__name__ == "TraitChangeEvent" and e.name == "value":
+            self.modern.append((e.name, e.new))
+
+
+def _swap_links(name):
+    return name.replace(".", "\0").replace(":", ".").replace("\0", ":")
+
+
+def harness_factory(lname, k, nargs, twins=False, form="lambda"):
     """twins: every object the mutations put into the graph compares EQUAL to every other one (value-based __eq__) while
     being a distinct object - reachability is a matter of identity"""
     oexpr, steps, first_notifies = NAMES[lname]
@@ -121,13 +146,45 @@ def harness_factory(lname, k, nargs, twins=False):
             counter[0] += 1
             return N(name="f%02d" % counter[0], eqkey="twin") if twins else N(name="f%02d" % counter[0])
 
-        root = N(name="root")
+        legacy, modern, legacy2, modern2 = [], [], [], []
+        Root = N
+        ctor = {}
+        if form in ("decorated", "overridden"):
+            # the same registration declared on the class: decorated handlers, optionally postponed until after the constructor
+            # arguments (post_init), optionally re-declared by a subclass under another extended name
+            post = ex.flag("post_init")
+
+            def declare(base, ln, oe):
+                class Declared(base):
+                    @on_trait_change(ln, post_init=post)
+                    def _legacy_handler(self, obj, name, old, new):
+                        legacy.append((name, new))
+
+                    @observe(oe, post_init=post)
+                    def _modern_handler(self, e):
+                        if type(e).__name__ == "TraitChangeEvent" and e.name == "value":
+                            modern.append((e.name, e.new))
+                return Declared
+            if form == "overridden":
+                Base = declare(N, _swap_links(lname), _swap_links(oexpr))
+                Root = declare(Base, lname, oexpr)
+            else:
+                Root = declare(N, lname, oexpr)
         start_none = ex.flag("child_starts_none")
-        if not start_none:
-            root.child = fresh()
-        root.children = [fresh(), fresh()]
-        root.mapping = {"a": fresh()}
-        legacy, modern = [], []
+        if form in ("decorated", "overridden") and ex.flag("constructor_arguments"):
+            if not start_none:
+                ctor["child"] = fresh()
+            ctor["children"] = [fresh(), fresh()]
+            ctor["mapping"] = {"a": fresh()}
+            root = Root(name="root", **ctor)
+        else:
+            root = Root() if form in ("decorated", "overridden") else Root(name="root")
+            if not start_none:
+                root.child = fresh()
+            root.children = [fresh(), fresh()]
+            root.mapping = {"a": fresh()}
+        if form == "methods":
+            r1, r2 = _Recorder(legacy, modern), _Recorder(legacy2, modern2)
         if nargs == 0:
             lh = lambda: legacy.append(("?", "value"))
         elif nargs == 1:
@@ -137,8 +194,16 @@ def harness_factory(lname, k, nargs, twins=False):
         else:
             lh = lambda obj, name, old, new: legacy.append((name, new))
         oh = lambda e: modern.append((e.name, e.new)) if type(e).__name__ == "TraitChangeEvent" and e.name == "value" else None
-        root.on_trait_change(lh, lname)
-        root.observe(oh, oexpr)
+        if form == "lambda":
+            root.on_trait_change(lh, lname)
+            root.observe(oh, oexpr)
+        elif form == "methods":
+            lh = r1.on_legacy
+            for r in (r1, r2):
+                root.on_trait_change(r.on_legacy, lname)
+                root.observe(r.on_modern, oexpr)
+        else:
+            lh = root._legacy_handler
         keep = []
         trace = []
         for step in range(k):
@@ -192,17 +257,27 @@ def harness_factory(lname, k, nargs, twins=False):
             for node in nodes:
                 legacy.clear()
                 modern.clear()
+                legacy2.clear()
+                modern2.clear()
                 node.value += 1
                 want = 1 if any(node is r for r in reach) else 0
+                if form == "methods":
+                    ex.check(len(modern2) == want and len(legacy2) == want,
+                             "a second listener object that compares equal to the first has its own registration")
                 ex.check(len(modern) == want, "observe handler called iff the node is reachable (reference behaviour)")
                 ex.check(len(legacy) == want, "the legacy handler is called for a change of the final attribute iff the changed object is "
                                               "currently reachable along the name, exactly as the observe handler")
         # removal stops all calls
         root.on_trait_change(lh, lname, remove=True)
+        reach = G.reachable(root, steps)
         for node in G.all_nodes(root, keep):
             legacy.clear()
+            legacy2.clear()
             node.value += 1
             ex.check(legacy == [], "removing the registration stops all calls")
+            if form == "methods":
+                ex.check(len(legacy2) == (1 if any(node is r for r in reach) else 0),
+                         "... and only the calls of the listener object whose registration was removed")
         ex.note("errors", [repr(e)[:300] for e in errors])
         ex.check(errors == [], "no listener raised")
         return {"trace": trace}
@@ -227,4 +302,15 @@ def obligations(tier, build):
                                       bounds={"extended name": lname, "observe expression": NAMES[lname][0], "history length": K,
                                               "objects": "pairwise equal (value-based __eq__), distinct", "list positions": "unbounded Int"},
                                       leverage="list indices; otherwise choice feasibility only", max_paths=100000, path_wall_s=60))
+    for form in ("methods", "decorated", "overridden"):
+        for lname in NAMES:
+            if tier == "quick" and lname in ("child.children.value",):
+                continue
+            obs.append(Obligation("forms/%s/%s/k=%d" % (form, lname, K), harness_factory(lname, K, 4, form=form), env=G.env, stubs=STUBS,
+                                  bounds={"extended name": lname, "observe expression": NAMES[lname][0], "history length": K,
+                                          "registration": {"methods": "bound methods of two listener objects that compare equal",
+                                                           "decorated": "decorators on the class, post_init and constructor arguments symbolic",
+                                                           "overridden": "decorated handlers re-declared by a subclass under the name with "
+                                                                         "'.' and ':' exchanged"}[form]},
+                                  leverage="list indices; otherwise choice feasibility only", max_paths=100000, path_wall_s=60))
     return obs
